@@ -215,17 +215,21 @@ prop('C18',
      )
 
 prop('C03',
-     explanation='Symbolic execution of the real multistream-select code: the message codec on fully symbolic byte strings, and complete '
-                 'dialer/listener exchanges of the message-based (WebRTC) variant for every preference list and listener set, including split '
-                 'first messages.',
+     explanation='Symbolic execution of the real multistream-select code: the message codec on fully symbolic byte strings, the length-delimited '
+                 'framing on symbolic prefixes, the real DialerSelectFuture and ListenerSelectFuture negotiating over an in-memory link whose '
+                 'fragmentation / Pending / flush answers are solver-chosen (both versions) followed by a payload written right after, and '
+                 'complete exchanges of the message-based (WebRTC) variant for every preference list and listener set.',
      units=[
          dict(harness='c19_multistream_decode', covers=['c19.accepted', 'c19.rejected'], min_paths=30, split=5,
               params={'quick': {'max_len': 8}, 'thorough': {'max_len': 12}}, conform={'quick': 100, 'thorough': 1000}, nvals=16),
          LENGTH_DELIMITED,
+         dict(harness='c03_stream_negotiation', covers=['c03s.agreed', 'c03s.both-failed'], min_paths=500, split=6,
+              params={'quick': {'io_budget': 4}, 'thorough': {'io_budget': 6}}, conform={'quick': 200, 'thorough': 2000}, nvals=24),
          dict(harness='c03_webrtc_negotiation', covers=['c03m.accepted', 'c03m.rejected', 'c03m.exhausted', 'c03m.pending-protocol'], min_paths=200, split=3,
               conform={'quick': 100, 'thorough': 1000}, nvals=12),
      ],
-     bounds={'dialer list': 'main + 0..3 fallbacks', 'listener set': 'any subset of 4 names, two orders', 'names': '2-byte names',
+     bounds={'stream variant': 'dialer list 1..2 of 3 names, listener set <= 2 names, V1 and V1Lazy, io_budget scripted carrier answers (quick 4, thorough 6), 2 payload bytes',
+             'dialer list': 'main + 0..3 fallbacks', 'listener set': 'any subset of 4 names, two orders', 'names': '2-byte names',
              'codec input': 'quick <= 8, thorough <= 12 symbolic bytes'},
      outside=['interoperability with the reference libp2p implementation', 'fallback->main mapping in protocol_set.rs', 'long names / lists'],
      )
